@@ -466,6 +466,42 @@ func c05Validator(e *Env) {
 		}
 		r.Check(okAll, "R05.3", key+"#every-run-reaches-the-iteration", "no return of the validator lies before the iteration over the subject services (a shortcut that skips the check accepts a shared service holding a contextual one)", e.P.Pos(bad))
 	}
+	// a dependency that is not declared has no scope: a look-up by name that yields a position must not fall
+	// back to position 0 (the zero value of a missing key), which is some unrelated service
+	nIdx, nBadIdx := 0, 0
+	for _, f := range fns {
+		for _, b := range f.Blocks {
+			for _, ins := range b.Instrs {
+				var idx ssa.Value
+				switch x := ins.(type) {
+				case *ssa.IndexAddr:
+					idx = x.Index
+				case *ssa.Index:
+					idx = x.Index
+				default:
+					continue
+				}
+				lk, isLk := unwrap(idx).(*ssa.Lookup)
+				if !isLk {
+					continue
+				}
+				if _, isMap := lk.X.Type().Underlying().(*types.Map); !isMap {
+					continue
+				}
+				nIdx++
+				if !lk.CommaOk {
+					nBadIdx++
+					r.Violate("R05.3", key+"#missing-dependency-has-no-scope", "a position looked up by name without the comma-ok form indexes the service list: for a dependency that is not declared the look-up yields 0 and the scope of the first service is taken for it (a missing service becomes a scope error that --ignore-missing-services cannot switch off)", nil, e.P.Pos(ins.Pos()))
+				}
+			}
+		}
+	}
+	if nIdx > 0 && nBadIdx == 0 {
+		r.Hold("R05.3", key+"#missing-dependency-has-no-scope", fmt.Sprintf("%d position look-ups index the service list, all in the comma-ok form", nIdx))
+	}
+	if nIdx == 0 {
+		r.Hold("R05.3", key+"#missing-dependency-has-no-scope", "service records are looked up by name in a map of records (a missing name yields the zero record, whose scope is not contextual); no position look-up indexes the service list")
+	}
 	// graph: Deps(subject.Name) of o.BuildDependencyGraph()
 	okGraph := false
 	allInstrs(fn, func(_ *ssa.Function, ins ssa.Instruction) {
